@@ -6,6 +6,7 @@ import (
 	"os"
 	"path/filepath"
 	"sort"
+	"strconv"
 	"strings"
 
 	"git.metabarcoding.org/obitools/obitools4/obitools4/pkg/zverif/simrt"
@@ -19,6 +20,7 @@ type cleanSeq struct {
 	ID     string
 	Seq    string
 	Counts map[string]int // per sample
+	Scalar bool           // written with a scalar "sample" attribute instead of a merged_sample map
 }
 
 func oneDiff(a, b string) bool {
@@ -71,8 +73,16 @@ func drawCleanCase(t *simrt.Tape, thorough bool) []cleanSeq {
 	}
 	nsamples := 1 + t.Choose(3)
 	samples := []string{}
+	// one data set in four has not been dereplicated: every record belongs to one sample, named
+	// by a scalar attribute - a word, or a number (a date, a plate position) as JSON writes it
+	scalar := t.Choose(4) == 3
+	numeric := scalar && t.Choose(2) == 1
 	for i := 0; i < nsamples; i++ {
-		samples = append(samples, fmt.Sprintf("smp%d", i))
+		if numeric {
+			samples = append(samples, []string{"20240103", "20240104", "7"}[i])
+		} else {
+			samples = append(samples, fmt.Sprintf("smp%d", i))
+		}
 	}
 	seen := map[string]bool{}
 	var seqs []string
@@ -153,6 +163,17 @@ func drawCleanCase(t *simrt.Tape, thorough bool) []cleanSeq {
 		}
 		out = append(out, c)
 	}
+	if scalar {
+		for i := range out {
+			keep := samples[t.Choose(len(samples))]
+			v, ok := out[i].Counts[keep]
+			if !ok {
+				v = 1 + t.Choose(9)
+			}
+			out[i].Counts = map[string]int{keep: v}
+			out[i].Scalar = true
+		}
+	}
 	return out
 }
 
@@ -164,6 +185,15 @@ func cleanInput(seqs []cleanSeq) []byte {
 			tot += v
 		}
 		r := Rec{ID: s.ID, Seq: s.Seq, Annot: map[string]any{"count": tot, "merged_sample": s.Counts}}
+		if s.Scalar {
+			for name := range s.Counts {
+				var v any = name
+				if n, err := strconv.Atoi(name); err == nil {
+					v = n
+				}
+				r.Annot = map[string]any{"count": tot, "sample": v}
+			}
+		}
 		sb.WriteString(">" + s.ID + " " + jsonHeader(r) + "\n" + s.Seq + "\n")
 	}
 	return []byte(sb.String())
